@@ -1,0 +1,71 @@
+//! Verification hooks, compiled only with `--cfg koto_verif`.
+//!
+//! The hooks record one event per linearization point of the VM's control state (frames, catch
+//! points, native activations, thrown errors) into a thread-local sink, so that executions can be
+//! validated as traces against the TLA+ specification of the VM. They never change behaviour,
+//! and nothing is recorded unless recording has been started with [start].
+
+use std::cell::RefCell;
+use std::sync::atomic::{AtomicU32, Ordering};
+
+static NEXT_VM_ID: AtomicU32 = AtomicU32::new(1);
+
+thread_local! {
+    static SINK: RefCell<Option<Vec<Event>>> = const { RefCell::new(None) };
+}
+
+/// A recorded VM event
+#[derive(Clone, Debug)]
+pub struct Event {
+    /// The event's name (the action in the specification)
+    pub name: &'static str,
+    /// The id of the VM that emitted the event
+    pub vm: u32,
+    /// call_stack.len() after the event
+    pub depth: usize,
+    /// registers.len() after the event
+    pub regs: usize,
+    /// register_base after the event
+    pub base: usize,
+    /// sequence_builders.len() after the event
+    pub seqb: usize,
+    /// string_builders.len() after the event
+    pub strb: usize,
+    /// The number of catch points registered in the top frame after the event
+    pub catches: usize,
+    /// Event specific values
+    pub a: i64,
+    /// Event specific values
+    pub b: i64,
+    /// Event specific text
+    pub s: &'static str,
+}
+
+/// Returns a fresh id for a VM
+pub fn next_vm_id() -> u32 {
+    NEXT_VM_ID.fetch_add(1, Ordering::Relaxed)
+}
+
+/// Starts recording events on this thread, discarding any previously recorded events
+pub fn start() {
+    SINK.with(|sink| *sink.borrow_mut() = Some(Vec::new()));
+}
+
+/// Stops recording on this thread and returns the recorded events
+pub fn take() -> Vec<Event> {
+    SINK.with(|sink| sink.borrow_mut().take().unwrap_or_default())
+}
+
+/// Returns true if events are being recorded on this thread
+pub fn enabled() -> bool {
+    SINK.with(|sink| sink.borrow().is_some())
+}
+
+/// Records an event if recording is enabled
+pub fn emit(event: Event) {
+    SINK.with(|sink| {
+        if let Some(events) = sink.borrow_mut().as_mut() {
+            events.push(event);
+        }
+    });
+}
